@@ -512,54 +512,12 @@ static void misuse(Tape &t, Prog &p, Kept &k, Counters &c, std::ostream &tr) {
     }
 }
 
-// a populated block so that the misuse steps meet entities of every kind from the first step on
-static void furnish(nix::File &f) {
-    nix::Block b = f.createBlock("zz", "t");
-    nix::DataArray a2 = b.createDataArray("zz_2d", "t", nix::DataType::Double, nix::NDSize({4, 3}));
-    std::vector<double> v(12);
-    for (size_t i = 0; i < 12; i++) v[i] = static_cast<double>(i);
-    a2.setData(nix::DataType::Double, v.data(), nix::NDSize({4, 3}), nix::NDSize({0, 0}));
-    a2.appendSampledDimension(0.5, "time", "ms", 1.0);
-    a2.appendSetDimension(std::vector<std::string>{"a", "b", "c"});
-    nix::DataArray a1 = b.createDataArray("zz_range", "t", nix::DataType::Int32, nix::NDSize({5}));
-    a1.appendRangeDimension(std::vector<double>{0.0, 1.0, 2.5, 4.0, 8.0}, "x", "s");
-    a1.polynomCoefficients({1.0, 2.0});
-    a1.expansionOrigin(0.5);
-    nix::DataArray as = b.createDataArray("zz_str", "t", nix::DataType::String, nix::NDSize({4}));
-    std::vector<std::string> sv = {"one", "two"};
-    as.setData(nix::DataType::String, sv.data(), nix::NDSize({2}), nix::NDSize({1}));
-    as.appendSetDimension();
-    std::vector<nix::Column> cols = {{"c0", "mV", nix::DataType::Double}, {"c1", "", nix::DataType::String}, {"c2", "", nix::DataType::Int32}};
-    nix::DataFrame df = b.createDataFrame("zz_frame", "t", cols);
-    df.rows(3);
-    nix::DataArray af = b.createDataArray("zz_framed", "t", nix::DataType::Float, nix::NDSize({3}));
-    af.appendDataFrameDimension(df, 0u);
-    nix::Tag tg = b.createTag("zz_tag", "t", {1.5, 0.0});
-    tg.extent({1.0, 1.0});
-    tg.addReference(a2);
-    tg.createFeature(a1, nix::LinkType::Tagged);
-    tg.createFeature(as, nix::LinkType::Indexed);
-    nix::DataArray pos = b.createDataArray("zz_pos", "t", nix::DataType::Double, nix::NDSize({2, 2}));
-    pos.appendSetDimension();
-    pos.appendSetDimension();
-    nix::MultiTag mt = b.createMultiTag("zz_mtag", "t", pos);
-    mt.addReference(a2);
-    mt.createFeature(a1, nix::LinkType::Indexed);
-    nix::Group g = b.createGroup("zz_group", "t");
-    g.addDataArray(a2);
-    g.addTag(tg);
-    b.createSource("zz_source", "t").createSource("zz_child", "t");
-    nix::Section s = f.createSection("zz_section", "t");
-    s.createProperty("zz_prop", nix::Variant(1.5));
-    s.createSection("zz_sub", "t");
-}
-
 static void body(Tape &t, Ctx &ctx) {
     std::string pa = ctx.path("c16.nix"), pb = ctx.path("c16_other.nix");
     Prog p(t, ctx.trace, Profile::Reject);
     ctx.trace << "C16: ";
     p.start(pa, pb);
-    furnish(p.f);
+    furnishFile(p.f);
     Kept k;
     Counters c;
     size_t nops = 6 + t.below(70);
